@@ -4,6 +4,7 @@ import (
 	"bytes"
 	"encoding/binary"
 	"fmt"
+	"os"
 	"sort"
 	"strings"
 	"testing"
@@ -697,6 +698,9 @@ func TestVerifC01(t *testing.T) {
 		}
 		meta := map[string]any{"consensus": cons, "n": n, "byz": spec.byz, "twins": spec.twins, "world_seed": spec.seed, "script": tag, "crypto": spec.crypto, "fetch_fail": spec.fetchFail, "send_fail": spec.sendFail,
 			"events": len(h.events), "commits": res.commits, "drop": spec.dropProb, "dup": spec.dupProb, "withhold": spec.withhold, "trace": h.evDesc}
+		if d := os.Getenv("VERIF_C01_DUMP"); d != "" && strings.HasPrefix(tag, "script-") {
+			_ = os.WriteFile(d+"/"+cons+"-"+tag+".txt", []byte(fmt.Sprintf("commits=%v\n", res.commits)+strings.Join(h.evDesc, "\n")+"\n"), 0o644)
+		}
 		nontrivial := h.votes >= 4 && h.commits >= 1
 		key := fmt.Sprintf("%s/%d/%v/%v/%s", cons, n, spec.byz, spec.twins, strings.Join(h.events, ";"))
 		sample := map[string]any{"consensus": cons, "n": n, "byz": spec.byz, "twins": spec.twins, "script": tag, "votes": h.votes, "byz_votes": h.byzvotes,
@@ -773,6 +777,16 @@ func TestVerifC01(t *testing.T) {
 			t.Fatalf("world: %v", err)
 		}
 		emitHist(cons, 4, res.hist.spec, res, "script-catch-up-partial-fetch")
+	}
+	{
+		res, err := c01FastVoteThenStaleReport(7)
+		if err != nil {
+			t.Fatalf("world: %v", err)
+		}
+		if len(res.commits["r2n0"]) < 4 {
+			v.Oracle(false, "harness:fhs-vote-then-stale-report-script-genuine-branch-does-not-commit", fmt.Sprintf("replica 2 committed %v", res.commits["r2n0"]), nil)
+		}
+		emitHist("fasthotstuff", 4, res.hist.spec, res, "script-fhs-vote-then-stale-report")
 	}
 	for _, variant := range []string{"fhs-honest", "fhs-stale-highqc", "fhs-old-aggqc"} {
 		res, err := c01DirectedFast(variant, 7)
@@ -1065,6 +1079,210 @@ func c01DirectedFast(variant string, seed int64) (*c01Result, error) {
 				}
 			}
 		}
+	}
+	return c01Finish(h, live, 0), nil
+}
+
+// c01FastVoteThenStaleReport (Fast-HotStuff): an honest timeout must report a QC at least as high
+// as the QC of every block the replica voted for, also when the commit triggered by that block
+// failed (an ancestor could not be fetched). Otherwise the Byzantine leader assembles an aggregate
+// QC from replica 1's stale report, replica 3's and its own, and forks below a block that replica 2
+// commits.
+func c01FastVoteThenStaleReport(seed int64) (*c01Result, error) {
+	spec := wSpec{consensus: "fasthotstuff", n: 4, byz: []hotstuff.ID{4}, seed: seed}
+	for i := 0; i < 20; i++ {
+		spec.leaders = append(spec.leaders, 4)
+	}
+	w, err := newWorld(spec)
+	if err != nil {
+		return nil, err
+	}
+	h := newC01Hist(w, spec)
+	B := w.nodes[NodeID{ReplicaID: 4}]
+	var live []*wNode
+	for _, id := range w.order {
+		if nd := w.nodes[id]; !nd.byz {
+			live = append(live, nd)
+		}
+	}
+	for _, id := range w.order {
+		w.partition[id] = 0
+	}
+	flush := func() {
+		for guard := 0; len(w.pending) > 0 && guard < 20000; guard++ {
+			m := w.pending[0]
+			w.pending = w.pending[1:]
+			to := w.nodes[m.to]
+			if to.byz {
+				w.byzHandle(to, m.payload)
+				h.observe(nil)
+				continue
+			}
+			if p, ok := m.payload.(hotstuff.ProposeMsg); ok {
+				w.regProposal(&p)
+			}
+			to.eventLoop.AddEvent(m.payload)
+			w.drain(to)
+			h.observe(to)
+		}
+	}
+	timeouts := func() {
+		for _, nd := range live {
+			nd.eventLoop.AddEvent(hotstuff.TimeoutEvent{View: nd.viewStates.View()})
+			w.drain(nd)
+			h.observe(nd)
+		}
+		flush()
+	}
+	mkBatch := func(k int) *clientpb.Batch {
+		return &clientpb.Batch{Commands: []*clientpb.Command{{ClientID: 99, SequenceNumber: uint64(k), Data: []byte("byz")}}}
+	}
+	propose := func(view hotstuff.View, parent hotstuff.Hash, qc hotstuff.QuorumCert, agg *hotstuff.AggregateQC) (*hotstuff.Block, bool) {
+		b := hotstuff.NewBlock(parent, qc, mkBatch(int(view)+100), view, 4)
+		p := hotstuff.ProposeMsg{ID: 4, Block: b, AggregateQC: agg}
+		w.regProposal(&p)
+		B.blockchain.Store(b)
+		for _, to := range live {
+			w.byzSendTo(B, to, p)
+		}
+		flush()
+		if pc, err := B.auth.CreatePartialCert(b); err == nil {
+			B.votesSeen[b.Hash()] = append(B.votesSeen[b.Hash()], pc)
+		}
+		w.byzAssemble(B)
+		h.observe(nil)
+		for _, q := range w.qcs {
+			if q.BlockHash() == b.Hash() {
+				return b, true
+			}
+		}
+		return b, false
+	}
+	qcOf := func(b *hotstuff.Block) hotstuff.QuorumCert {
+		for _, q := range w.qcs {
+			if q.BlockHash() == b.Hash() {
+				return q
+			}
+		}
+		return hotstuff.QuorumCert{}
+	}
+	gen := hotstuff.GetGenesis()
+	genQC := B.viewStates.HighQC()
+	w.learnQC(genQC)
+	_ = propose
+	h1, h2, h3 := w.nodes[NodeID{ReplicaID: 1}], w.nodes[NodeID{ReplicaID: 2}], w.nodes[NodeID{ReplicaID: 3}]
+	proposeTo := func(view hotstuff.View, parent hotstuff.Hash, qc hotstuff.QuorumCert, agg *hotstuff.AggregateQC, tos ...*wNode) (*hotstuff.Block, bool) {
+		b := hotstuff.NewBlock(parent, qc, mkBatch(int(view)+100+10*len(tos)), view, 4)
+		p := hotstuff.ProposeMsg{ID: 4, Block: b, AggregateQC: agg}
+		w.regProposal(&p)
+		B.blockchain.Store(b)
+		for _, to := range tos {
+			w.byzSendTo(B, to, p)
+		}
+		flush()
+		if pc, err := B.auth.CreatePartialCert(b); err == nil {
+			B.votesSeen[b.Hash()] = append(B.votesSeen[b.Hash()], pc)
+		}
+		w.byzAssemble(B)
+		h.observe(nil)
+		for _, q := range w.qcs {
+			if q.BlockHash() == b.Hash() {
+				return b, true
+			}
+		}
+		return b, false
+	}
+	// the Byzantine replica's own, correctly self-signed timeout for a view, reporting an old QC
+	byzTimeout := func(view hotstuff.View, qc hotstuff.QuorumCert) (hotstuff.TimeoutMsg, bool) {
+		vs, err := B.auth.Sign(view.ToBytes())
+		if err != nil {
+			return hotstuff.TimeoutMsg{}, false
+		}
+		m := hotstuff.TimeoutMsg{ID: 4, View: view, SyncInfo: hotstuff.NewSyncInfoWith(qc), ViewSignature: vs}
+		ms, err := B.auth.Sign(m.ToBytes())
+		if err != nil {
+			return hotstuff.TimeoutMsg{}, false
+		}
+		m.MsgSignature = ms
+		w.regTimeout(m)
+		h.observe(nil)
+		return m, true
+	}
+	// view 1: b1 for everybody
+	b1, ok := proposeTo(1, gen.Hash(), genQC, nil, h1, h2, h3)
+	if !ok {
+		return c01Finish(h, live, 0), nil
+	}
+	timeouts()
+	// views 2..4: replica 1 does not receive the proposals (it keeps up with the views through the
+	// timeout certificates only)
+	qc, parent := qcOf(b1), b1.Hash()
+	var blocks []*hotstuff.Block
+	// replica 1 never obtains the view-2 block b2 (its requests for it are lost)
+	w.fetchDeny = func(req NodeID, x hotstuff.Hash) bool {
+		b, known := w.blocks[x]
+		return req == h1.id && known && b.View() == 2
+	}
+	for v := 2; v <= 4 && ok; v++ {
+		var b *hotstuff.Block
+		b, ok = proposeTo(hotstuff.View(v), parent, qc, nil, h2, h3)
+		if ok {
+			qc, parent = qcOf(b), b.Hash()
+			blocks = append(blocks, b)
+		}
+		timeouts()
+	}
+	if !ok || len(blocks) != 3 {
+		return c01Finish(h, live, 0), nil
+	}
+	b2, b3, b4 := blocks[0], blocks[1], blocks[2]
+	q3, q4 := qcOf(b3), qcOf(b4)
+	// view 5: b5 (QC b4) for replicas 1 and 2. Replica 1 can fetch b4 and b3 but not b2, so its
+	// commit of b3 fails after the proposal was verified; it votes all the same, and the QC of the
+	// block it voted for must be the least it reports in its next timeout.
+	_ = b2
+	b5, ok5 := proposeTo(5, b4.Hash(), q4, nil, h1, h2)
+	w.fetchDeny = nil
+	if !ok5 {
+		return c01Finish(h, live, 0), nil
+	}
+	// view 5 ends by timeout everywhere; the Byzantine replica adds its own timeout reporting the
+	// genesis QC and picks the timeouts of replicas 1 and 3 for its aggregate QC
+	timeouts()
+	bt, okt := byzTimeout(5, genQC)
+	var picked []hotstuff.TimeoutMsg
+	for _, t := range w.timeoutsSeen[5] {
+		if t.ID == 1 || t.ID == 3 {
+			picked = append(picked, t)
+		}
+	}
+	if !okt || len(picked) != 2 {
+		return c01Finish(h, live, 0), nil
+	}
+	agg, err := B.auth.CreateAggregateQC(5, append(picked, bt))
+	if err != nil {
+		return c01Finish(h, live, 0), nil
+	}
+	w.learnAgg(agg)
+	// view 6: the genuine continuation for replica 2 (it commits b4) and a fork below b4, on b3,
+	// justified by the aggregate QC, for replicas 1 and 3
+	b6, ok6 := proposeTo(6, b5.Hash(), qcOf(b5), nil, h2)
+	_ = b6
+	f6, okf := proposeTo(6, b3.Hash(), q3, &agg, h1, h3)
+	timeouts()
+	if ok6 {
+		if b7, ok7 := proposeTo(7, b6.Hash(), qcOf(b6), nil, h2); ok7 {
+			_ = b7
+		}
+	}
+	fp, fq := f6, qcOf(f6)
+	for v := 7; v <= 9 && okf; v++ {
+		var nb *hotstuff.Block
+		nb, okf = proposeTo(hotstuff.View(v), fp.Hash(), fq, nil, h1, h3)
+		if okf {
+			fp, fq = nb, qcOf(nb)
+		}
+		timeouts()
 	}
 	return c01Finish(h, live, 0), nil
 }
